@@ -84,6 +84,7 @@ type Unit struct {
 	probing    int
 	FnName     string // display name when the unit is not a function (lemma)
 	panicking  int    // > 0 while the deferred calls of a recovered panic are executed
+	privateObj map[int]bool // objects holding private locals (see privateAllocs)
 }
 
 func (e *Engine) NewUnit(fn *ssa.Function, bc *BoundContract) *Unit {
@@ -243,6 +244,7 @@ type frame struct {
 	params  []Val
 	panics  []*State // states reaching a panic edge (for recover modelling)
 	heads   []*State // loop-head states of the loops being executed (innermost last)
+	private    map[*ssa.Alloc]bool     // locals captured only by deferred closures (no callee can write them)
 	exitStates map[int]*State          // loop ordinal -> merged state of the edges leaving the loop
 	exitCtx    map[int]*ssa.BasicBlock // a block after the loop (for resolving local names)
 }
@@ -393,6 +395,73 @@ func regAllocs(fn *ssa.Function) map[*ssa.Alloc]bool {
 				}
 			}
 			if reg {
+				out[a] = true
+			}
+		}
+	}
+	return out
+}
+
+// privateAllocs: locals that live in memory only because a DEFERRED closure of the same function captures them. Their
+// address is never passed to a call nor stored anywhere else, and the closure runs at function exit only: no callee
+// can write them, and a loop writes them only through the stores the loop itself contains.
+func privateAllocs(fn *ssa.Function) map[*ssa.Alloc]bool {
+	out := map[*ssa.Alloc]bool{}
+	for _, b := range fn.Blocks {
+		for _, in := range b.Instrs {
+			a, ok := in.(*ssa.Alloc)
+			if !ok {
+				continue
+			}
+			priv, captured := true, false
+			for _, r := range *a.Referrers() {
+				switch x := r.(type) {
+				case *ssa.UnOp:
+					if x.Op != token.MUL {
+						priv = false
+					}
+				case *ssa.Store:
+					if x.Addr != a || x.Val == a {
+						priv = false
+					}
+				case *ssa.DebugRef:
+				case *ssa.MakeClosure:
+					captured = true
+					// the closure value may only be deferred
+					for _, cr := range *x.Referrers() {
+						if _, isDefer := cr.(*ssa.Defer); !isDefer {
+							if _, isDbg := cr.(*ssa.DebugRef); !isDbg {
+								priv = false
+							}
+						}
+					}
+					// inside the closure the variable is only loaded and stored
+					cf := x.Fn.(*ssa.Function)
+					for i, bnd := range x.Bindings {
+						if bnd != ssa.Value(a) || i >= len(cf.FreeVars) {
+							continue
+						}
+						for _, fr := range *cf.FreeVars[i].Referrers() {
+							switch y := fr.(type) {
+							case *ssa.UnOp:
+								if y.Op != token.MUL {
+									priv = false
+								}
+							case *ssa.Store:
+								if y.Addr != ssa.Value(cf.FreeVars[i]) || y.Val == ssa.Value(cf.FreeVars[i]) {
+									priv = false
+								}
+							case *ssa.DebugRef:
+							default:
+								priv = false
+							}
+						}
+					}
+				default:
+					priv = false
+				}
+			}
+			if priv && captured {
 				out[a] = true
 			}
 		}
@@ -870,6 +939,15 @@ func (fr *frame) execInstr(st *State, in ssa.Instruction) {
 		a := u.newObj()
 		u.zeroInit(st, a, t)
 		fr.vals[x] = a
+		if fr.private == nil {
+			fr.private = privateAllocs(fr.fn)
+		}
+		if fr.private[x] {
+			if u.privateObj == nil {
+				u.privateObj = map[int]bool{}
+			}
+			u.privateObj[a.K] = true
+		}
 	case *ssa.Store:
 		if cr, ok := fr.get(x.Addr).(CellRef); ok {
 			st.cells[cr.A] = fr.get(x.Val)
@@ -960,6 +1038,7 @@ func (fr *frame) execInstr(st *State, in ssa.Instruction) {
 	case *ssa.Call:
 		fr.assertsAtCall(st, x)
 		fr.vals[x] = fr.call(st, &x.Call, x, x.Pos())
+		fr.assumesAfterCall(st, x)
 	case *ssa.Defer:
 		var args []Val
 		for _, a := range x.Call.Args {
@@ -1164,6 +1243,12 @@ func (fr *frame) unop(st *State, x *ssa.UnOp) Val {
 			if gi := u.E.globalInitOf(g); gi.ok && gi.fn != nil {
 				u.Trusted["read-only global "+g.Pkg.Pkg.Path()+"."+g.Name()+": bound to "+gi.fn.String()+" by its initialiser (no writer found by scan of the package)"] = true
 				return &FuncV{Fn: gi.fn}
+			}
+			// any other variable declared read-only (no writer found by the scan of its package) has, in every state, the
+			// value it had at entry - the same reading as in contracts (specEnv.loadGlobal)
+			if why := u.E.globalWritten(g); why == "" {
+				u.Trusted["read-only global "+g.Pkg.Pkg.Path()+"."+g.Name()+": same value in every state (no writer found by scan of its package)"] = true
+				return u.load(&State{pc: c.True, cells: map[*ssa.Alloc]Val{}, mems: map[string]*Mem{}}, a, x.Type())
 			}
 		}
 		fr.nilCheck(st, a, x.Pos())
@@ -1560,5 +1645,42 @@ func (fr *frame) assertsAtCall(st *State, x *ssa.Call) {
 		}
 		fr.u.oblige(st, "assert", "at call "+name+": "+strings.Join(strings.Fields(as.Clause.Text), " "), x.Pos(), g)
 		_ = g // asserted facts are not added as hypotheses: each assert stands alone and later queries stay small
+	}
+}
+
+// assumesAfterCall adds the "assume[after:Name]" clauses of the function under verification after a call whose callee
+// has that name: an assumed fact about what the call left unchanged (listed in the trusted base).
+func (fr *frame) assumesAfterCall(st *State, x *ssa.Call) {
+	if !fr.top || fr.bc == nil || len(fr.bc.Asserts) == 0 || fr.u.specMode > 0 {
+		return
+	}
+	name := ""
+	if x.Call.IsInvoke() {
+		name = x.Call.Method.Name()
+	} else if f := x.Call.StaticCallee(); f != nil {
+		name = f.Name()
+	} else if ld, ok := x.Call.Value.(*ssa.UnOp); ok && ld.Op == token.MUL {
+		if g, ok := ld.X.(*ssa.Global); ok {
+			name = g.Name()
+		}
+	}
+	if name == "" {
+		return
+	}
+	var env *specEnv
+	for _, as := range fr.bc.Asserts {
+		if as.Clause.Kind != "assume" || as.Clause.Name != "after:"+name {
+			continue
+		}
+		if fr.u.assertHit == nil {
+			fr.u.assertHit = map[*Clause]bool{}
+		}
+		fr.u.assertHit[as.Clause] = true
+		if env == nil {
+			env = fr.specEnv(fr.bc, st)
+			env.ctx = x.Block()
+		}
+		fr.u.Trusted["assumed after call "+name+" in "+fr.fn.Name()+": "+strings.Join(strings.Fields(as.Clause.Text), " ")] = true
+		fr.u.assume(st, env.evalBool(as.Expr))
 	}
 }
